@@ -9,14 +9,14 @@ import (
 // special-purpose blocks named by the property
 var c19V4Blocks = []string{
 	"10.0.0.0/8", "172.16.0.0/12", "192.168.0.0/16", // RFC 1918
-	"127.0.0.0/8",     // loopback
-	"169.254.0.0/16",  // link-local
-	"100.64.0.0/10",   // shared address space
+	"127.0.0.0/8",                                       // loopback
+	"169.254.0.0/16",                                    // link-local
+	"100.64.0.0/10",                                     // shared address space
 	"192.0.2.0/24", "198.51.100.0/24", "203.0.113.0/24", // documentation
-	"198.18.0.0/15",   // benchmarking
-	"224.0.0.0/4",     // multicast
-	"240.0.0.0/4",     // class E incl. broadcast
-	"0.0.0.0/32",      // unspecified
+	"198.18.0.0/15", // benchmarking
+	"224.0.0.0/4",   // multicast
+	"240.0.0.0/4",   // class E incl. broadcast
+	"0.0.0.0/32",    // unspecified
 }
 
 var c19V6Blocks = []string{
